@@ -224,6 +224,7 @@ COMBH = 'include/AIToolbox/Utils/Combinatorics.hpp'
 COMBC = 'src/Utils/Combinatorics.cpp'
 FGH = 'include/AIToolbox/Factored/Utils/FactorGraph.hpp'
 POLY = 'include/AIToolbox/Utils/Polytope.hpp'
+BG = 'include/AIToolbox/POMDP/Algorithms/Utils/BeliefGenerator.hpp'
 
 SITES = [
     # ---- Factored::match(keys, values, keys, values)  (Cursor.matchLoop / matchPartial)
@@ -261,9 +262,17 @@ SITES = [
     (UCORE, 'checkEqualSmall', 'return ( std::fabs(a - b) <= equalToleranceSmall );', 1),
     (UCORE, 'checkEqualGeneral', 'if ( checkEqualSmall(a,b) ) return true; return ( std::fabs(a - b) <= std::min(std::fabs(a), std::fabs(b)) * equalToleranceGeneral );', 1),
     (UCORE, 'max_element_unary', 'if (begin == end) return std::make_pair(end, 0.0); auto retval = begin; double max = std::invoke(unary_converter, *begin); while (++begin != end) { auto newV = std::invoke(unary_converter, *begin); if (newV > max) { retval = begin; max = newV; } } return std::make_pair(retval, max);', 1),
+    # ---- BeliefGenerator::expandBeliefList selection loop (BGCursor.selectStep / selectLoop / argmaxFirst)
+    (BG, 'select_bound', 'beliefsToAdd = std::min(beliefsToAdd, allBeliefsSize_ - goodBeliefsSize_); for (size_t i = 0; i < beliefsToAdd; ++i) {', 1),
+    (BG, 'select_argmax', 'auto dBegin = std::begin(distances), dEnd = std::end(distances); size_t id = std::distance( dBegin, std::max_element(dBegin, dEnd) );', 1),
+    (BG, 'select_double_swap', 'std::swap(distances[id], distances.back()); std::swap(bl[goodBeliefsSize_ + id], bl[allBeliefsSize_ - 1]); std::swap(bl[goodBeliefsSize_], bl[allBeliefsSize_ - 1]);', 1),
+    (BG, 'select_break', '++goodBeliefsSize_; if (goodBeliefsSize_ >= max) break;', 1),
+    (BG, 'select_pop_and_recompute', 'distances.pop_back(); seenObservations.emplace_back(); unproductiveBeliefs.emplace_back(); ++productiveBeliefs_; for (size_t k = 0; k < distances.size(); ++k) { distances[k] = std::min(distances[k], computeDistance(bl[goodBeliefsSize_ - 1], bl[goodBeliefsSize_ + k])); }', 1),
     # ---- the caller that relies on `advance()`'s return value and on isValid()/reset()
     (POLY, 'naive_enumerator', 'SubsetEnumerator enumerator(S - 1, 0ul, alphasSize + S);', 1),
     (POLY, 'naive_uses_lowest', 'last = enumerator.advance();', 1),
+    (POLY, 'naive_last_starts_at_zero', 'enumerator.reset(); size_t last = 0; while (enumerator.isValid()) { for (auto i = last; i < enumerator->size(); ++i) {', 1),
+    (POLY, 'naive_row_of_id', 'const auto index = (*enumerator)[i]; if (index < alphasSize) { m.row(i + 1).head(S) = std::invoke(p2, *std::next(alphasBegin, index)) * scale; m.row(i + 1)[S] = -1; } else { m.row(i + 1).setZero(); m.row(i + 1)[index - alphasSize] = 1.0; }', 1),
 ]
 
 
